@@ -2,7 +2,7 @@
    Proofs/IdxWriterProofs.v, Proofs/IdxReadProofs.v).  Model: Model/IdxWriter.v (the repaired
    tree: fix-F-C01a, fix-F-C01c, fix-F-C01d); spec: Spec/IdxWriterSpec.v. *)
 From Coq Require Import ZArith List.
-From EV Require Import Res Arr IdxWriter IdxWriterSpec StoreProofs IdxWriterProofs.
+From EV Require Import Res Arr IdxWriter IdxWriterSpec StoreProofs IdxWriterProofs IdxReadProofs.
 Import ListNotations.
 Open Scope Z_scope.
 
@@ -92,3 +92,57 @@ Print Assumptions key_store_roundtrip.
 Theorem key_store_int8_refuted : key_store (-128) 127 [300; -1] = Raise E_Overflow.
 Proof. exact key_store_int8_refuted_lemma. Qed.
 Print Assumptions key_store_int8_refuted.
+
+(* FULL.  Reads.  Given what the writer stored for the entries strs, data[a:b] through either wrapper
+   class (ro = ReadOnlyIndexedFieldArray, repaired by fix-F-C01d; else WriteableIndexedFieldArray) is
+   the sub-list of entries for every 0 <= a <= b <= n, and data[i] is entry i for every 0 <= i < n. *)
+Theorem idx_read_slice : forall (ro:bool) strs a b, 0 <= a -> a <= b -> b <= len strs ->
+  iw_getslice ro (stored_offsets strs) (spec_bytes strs) a b = Ok (spec_slice strs a b).
+Proof. exact idx_read_slice_lemma. Qed.
+Print Assumptions idx_read_slice.
+
+Example idx_read_slice_ex :
+  iw_getslice true (stored_offsets [[97]; []; [195;169]]) (spec_bytes [[97]; []; [195;169]]) 1 3
+  = Ok [[]; [195;169]].
+Proof. vm_compute. reflexivity. Qed.
+
+Theorem idx_read_item : forall strs i, 0 <= i < len strs ->
+  iw_getint (stored_offsets strs) (spec_bytes strs) i = Ok (spec_item strs i).
+Proof. exact idx_read_item_lemma. Qed.
+Print Assumptions idx_read_item.
+
+(* FULL.  End to end: any admissible history, then any in-range slice / item, in one statement.
+   (data[:] is the slice 0..n: spec_slice l 0 (len l) = l.) *)
+Theorem idx_write_then_read_slice : forall (h5:bool) (cs:Z) (ops:list iwop) (ro:bool) (a b:Z),
+  1 <= cs -> hist_ok false ops = true ->
+  0 <= a -> a <= b -> b <= len (hist_written [] ops) ->
+  (do st <- iw_history h5 cs ops; iw_getslice ro (fst st) (snd st) a b)
+  = Ok (spec_slice (hist_written [] ops) a b).
+Proof. exact idx_end_to_end_lemma. Qed.
+Print Assumptions idx_write_then_read_slice.
+
+Theorem idx_write_then_read_item : forall (h5:bool) (cs:Z) (ops:list iwop) (i:Z),
+  1 <= cs -> hist_ok false ops = true -> 0 <= i < len (hist_written [] ops) ->
+  (do st <- iw_history h5 cs ops; iw_getint (fst st) (snd st) i)
+  = Ok (spec_item (hist_written [] ops) i).
+Proof. exact idx_end_to_end_item_lemma. Qed.
+Print Assumptions idx_write_then_read_item.
+
+Theorem read_full_is_identity : forall (A:Type) (l:list A), spec_slice l 0 (len l) = l.
+Proof. exact @spec_slice_full. Qed.
+Print Assumptions read_full_is_identity.
+
+(* REFUTED on the pinned tree (F-C01d, fixed by fix-F-C01d): the ReadOnly class evaluates index[0] on
+   the empty offsets of an empty field (IndexError = OOB at site 10); with at least one entry the pinned
+   class agrees with the specification. *)
+Theorem ro_read_empty_refuted :
+  iw_getslice_orig true (stored_offsets []) (spec_bytes []) 0 0 = OOB 10
+  /\ spec_slice (@nil (list Z)) 0 0 = [].
+Proof. exact ro_read_empty_refuted_lemma. Qed.
+Print Assumptions ro_read_empty_refuted.
+
+Theorem idx_read_slice_pinned_nonempty : forall (ro:bool) strs a b,
+  strs <> [] -> 0 <= a -> a <= b -> b <= len strs ->
+  iw_getslice_orig ro (stored_offsets strs) (spec_bytes strs) a b = Ok (spec_slice strs a b).
+Proof. exact idx_read_slice_orig_lemma. Qed.
+Print Assumptions idx_read_slice_pinned_nonempty.
